@@ -125,6 +125,7 @@ class name_to_str_assumed(Contract):
     fn = Name.to_str
     props = ()
     assumed = True
+    accepts_opaque = True          # whatever stands for a name: the text only goes into a log record
 
     def result(c, cx, name):
         return '<uri>'
